@@ -424,19 +424,22 @@ Definition clean_old_unconfirmed (w : wallet) (tip : N) : wallet :=
                                  && (r_height o <? tip - 50) && r_cb o) (w_outs w) in
     with_outs w (fold_left (fun acc o => del_out acc (r_key o) None) dels (w_outs w)).
 
-(** updater::refresh_outputs given the node's answers *)
-Definition refresh (w : wallet) (parent : N) (update_all : bool) (tip : N) (p : presence)
+(** updater::apply_api_outputs given the node's answers *)
+Definition refresh_apply (w : wallet) (parent : N) (update_all : bool) (tip : N) (p : presence)
            (kernel_missing : list N) : wallet :=
   let qs := refresh_set w parent update_all in
   let reverted := reverted_ids w parent qs p kernel_missing in
-  let w1 :=
-    if tip <? lookup (w_confh w) parent then w
-    else
-      let w' := fold_left (apply_one parent tip p reverted) qs w in
-      let log' := map (fun t => if existsb (N.eqb (t_id t)) reverted && (t_parent t =? parent)
-                                then set_conf (set_ttype t TReverted) false else t) (w_log w') in
-      with_confh (with_log w' log') (update (w_confh w') parent tip) in
-  clean_old_unconfirmed w1 tip.
+  if tip <? lookup (w_confh w) parent then w
+  else
+    let w' := fold_left (apply_one parent tip p reverted) qs w in
+    let log' := map (fun t => if existsb (N.eqb (t_id t)) reverted && (t_parent t =? parent)
+                              then set_conf (set_ttype t TReverted) false else t) (w_log w') in
+    with_confh (with_log w' log') (update (w_confh w') parent tip).
+
+(** updater::refresh_outputs: apply the node's answers, then drop stale coinbase candidates *)
+Definition refresh (w : wallet) (parent : N) (update_all : bool) (tip : N) (p : presence)
+           (kernel_missing : list N) : wallet :=
+  clean_old_unconfirmed (refresh_apply w parent update_all tip p kernel_missing) tip.
 
 (* ------------------------------------------------------------------ init_send *)
 Definition to_sel (i : N) (o : orec) : out :=
